@@ -8,7 +8,9 @@ run_inproc(tool, argv, stdin_text, cwd)   the real main() in this process: patch
     args      processcli() returned / left through SystemExit (argparse usage error)
     validate  validateargs() returned / left through SystemExit
     load      every loader call the tool makes (Parsers.get_yaml_data, Parsers.get_yaml_multidoc_data,
-              yaml_merge.get_doc_mergers, yaml_diff.get_docs): via = "stdin" when the source is "-", ok = it loaded
+              yaml_merge.get_doc_mergers, yaml_diff.get_docs): via = "file", "dash" (the source is "-" and "-" is
+              among the arguments) or "implicit" (the source is "-" although no argument names it: main() decided to
+              read the waiting STDIN document); ok = it loaded
     work      every library call whose answer the tool delivers (EYAMLProcessor.get_eyaml_values / get_nodes /
               set_value / delete_gathered_nodes, Merger.merge_with, Differ.compare_to, the result list yaml-paths hands
               to its printer, get_search_term) with the outcome class it had
@@ -116,8 +118,13 @@ def install(mod, tool, ev, argv):
     # ---- loading
     RealParsers = mod.Parsers
 
+    named = any(str(a).strip() == "-" for a in argv)
+
     def via(source):
-        return "stdin" if str(source).strip() == "-" else "file"
+        # "-" among the arguments: the user named STDIN; otherwise main() decided by itself to read the waiting document
+        if str(source).strip() != "-":
+            return "file"
+        return "dash" if named else "implicit"
 
     class ParsersProxy(RealParsers):
         @staticmethod
